@@ -3,10 +3,11 @@ import NemoVerif.Models.V1Interp
 import NemoVerif.Models.V1Struct
 import NemoVerif.Models.V1Run
 import NemoVerif.Models.V1Mut
+import NemoVerif.Models.V1Ref
 import NemoVerif.Generated.LlmFlowsV1
 
 namespace NemoVerif.Drive.C14
-open Lean NemoVerif.Drive NemoVerif.V1Interp NemoVerif.V1Struct NemoVerif.V1Run NemoVerif.V1Mut
+open Lean NemoVerif.Drive NemoVerif.V1Interp NemoVerif.V1Struct NemoVerif.V1Run NemoVerif.V1Mut NemoVerif.V1StackFollow
 
 def vOfJson (j : Json) : Except String V :=
   match j with
@@ -245,6 +246,23 @@ def melemOfJson (j : Json) : Except String MElem := do
 
 def handle (op : String) (j : Json) : Except String Json := do
   match op with
+  | "follow" =>
+    -- the source-level reference `followAllK` of next_step_is_flow_statement_with_do on every prefix:
+    -- the dialog flow "id"/"prog", the subflow library, the history; null = the reference makes no claim
+    let id ← (← j.getObjVal? "id").getStr?
+    let p ← progOfJson (← j.getObjVal? "prog")
+    let libJ ← (← j.getObjVal? "lib").getArr?
+    let lib ← libJ.toList.mapM fun e => do
+      pure ((← (← e.getObjVal? "name").getStr?), (← progOfJson (← e.getObjVal? "prog")))
+    let hist ← (← (← j.getObjVal? "history").getArr?).toList.mapM eventOfJson
+    let i0 := match p with
+      | .step (.user i) _ => i
+      | _ => ""
+    let outs := (List.range (hist.length + 1)).map fun k =>
+      match followAllK lib id p i0 SLIDE_FUEL { ctx := [], ctr := 0, stk := [], dec := [] } (hist.take k) with
+      | some S => Json.mkObj [("dec", Json.arr (S.dec.map decisionToJson).toArray), ("depth", Json.num (JsonNumber.fromNat S.stk.length))]
+      | none => Json.null
+    pure (Json.mkObj [("res", Json.arr outs.toArray)])
   | "gen" =>
     -- one turn of `generate_events`: flows, the events so far, the scripted action results (k-th call of the conversation)
     let cfgs ← (← (← j.getObjVal? "flows").getArr?).toList.mapM cfgOfJson
